@@ -266,5 +266,5 @@ func init() {
 		},
 		Assumptions: []string{"per-operation equality with the sequential member-list model is the complete check because iterator and member readers are independent objects over one immutable ReaderAt (no linearizability search needed)"},
 	})
-	propProbes["C13"] = []string{"zero-length-member", "odd-member-followed-by-another", "16-byte-name", "third-member-after-an-odd-one", "eof-eager-full-read-at-end-of-file", "reader-op-overlapped-a-Next", "odd-last-member-without-pad", "blank-numeric-column", "data-looks-like-header", "name-with-trailing-slash"}
+	propProbes["C13"] = []string{"zero-length-member", "odd-member-followed-by-another", "16-byte-name", "third-member-after-an-odd-one", "eof-eager-full-read-at-end-of-file", "reader-op-overlapped-a-Next", "odd-last-member-without-pad", "blank-numeric-column", "data-looks-like-header", "name-with-trailing-slash", "name-with-interior-slash"}
 }
